@@ -145,6 +145,9 @@ type stlCue struct {
 	ExtraBreak int `json:"extra_break,omitempty"`
 	// Comment (read direction): the block's comment flag is 01h (translator's comment); it is a TTI block like any other
 	Comment bool `json:"comment,omitempty"`
+	// EBN (read direction): 0 = the block is numbered FFh (last block of its subtitle); n > 0 = extension block number n-1
+	// (00h..EFh), the block sharing its subtitle number with the next one. One cue per TTI block all the same
+	EBN int `json:"ebn,omitempty"`
 }
 
 type stlGSI struct {
@@ -312,14 +315,20 @@ func renderSTL(d stlDoc) ([]byte, bool) {
 		copy(blk[16:], "user data block, not a subtitle \x0b\x0bignored\x0a\x0a")
 		out = append(out, blk...)
 	}
-	for i, c := range d.Cues {
+	sn := 1
+	for _, c := range d.Cues {
 		for k := 0; k < c.UserDataBefore; k++ {
 			ud()
 		}
 		blk := make([]byte, 16, 128)
 		blk[0] = 0
-		blk[1], blk[2] = byte(i+1), byte((i+1)>>8)
+		blk[1], blk[2] = byte(sn), byte(sn>>8)
 		blk[3] = 0xff
+		if c.EBN > 0 {
+			blk[3] = byte(c.EBN - 1)
+		} else {
+			sn++
+		}
 		blk[4] = 0
 		blk[5], blk[6], blk[7], blk[8] = byte(c.In.H), byte(c.In.M), byte(c.In.S), byte(c.In.F)
 		blk[9], blk[10], blk[11], blk[12] = byte(c.Out.H), byte(c.Out.M), byte(c.Out.S), byte(c.Out.F)
@@ -862,6 +871,9 @@ func addBlankRowsAndComments(t *rapid.T, d *stlDoc) {
 			c.ExtraBreak = rapid.IntRange(1, 3).Draw(t, "extrabreakat")
 		}
 		c.Comment = rapid.IntRange(0, 5).Draw(t, "commentflag") == 0
+		if rapid.IntRange(0, 5).Draw(t, "extblock") == 0 {
+			c.EBN = rapid.SampledFrom([]int{1, 2, 0x80, 0xf0}).Draw(t, "ebn")
+		}
 	}
 }
 
